@@ -89,6 +89,36 @@ Proof.
   - apply Qle_shift_div_r; [exact Hp|]. setoid_replace (M / (M + eps) * hi * (M + eps)) with (hi * M) by (field; lra). exact B2.
 Qed.
 
+(** the repaired mean lies in the bounding box itself whenever the component has mass; without mass it is 0 *)
+Theorem mean_in_box r s xs lo hi : nn r -> nn s -> 0 < mass r s ->
+  length r = length s -> length s = length xs -> (forall x, In x xs -> lo <= x /\ x <= hi) ->
+  lo <= mean_guarded r s xs /\ mean_guarded r s xs <= hi.
+Proof.
+  intros Hr Hs Hm L1 L2 Hb. unfold mean_guarded, safe_mass.
+  assert (E : Qle_bool (mass r s) 0 = false).
+  { destruct (Qle_bool (mass r s) 0) eqn:E; [|reflexivity]. apply Qle_bool_iff in E. lra. }
+  rewrite E.
+  pose proof (had_nn _ _ Hr Hs) as Hh.
+  assert (Hl : length (had r s) = length xs).
+  { unfold had. rewrite map_length, combine_length. lia. }
+  destruct (dot_bounds (had r s) xs lo hi Hh Hl Hb) as [B1 B2]. fold (mass r s) in B1, B2.
+  split; [apply Qle_shift_div_l|apply Qle_shift_div_r]; try exact Hm; lra.
+Qed.
+
+Lemma dot_zero_total a xs : nn a -> total a == 0 -> dot a xs == 0.
+Proof.
+  revert xs. induction a as [|w a IH]; intros xs Hn Ht; [destruct xs; reflexivity|].
+  apply nn_cons in Hn. destruct Hn as [Hw Hn]. rewrite total_cons in Ht. pose proof (total_nn _ Hn).
+  assert (w == 0) by lra. assert (total a == 0) by lra.
+  destruct xs as [|x xs]; cbn [dot]; [reflexivity|]. rewrite (IH xs Hn H1). rewrite H0. ring.
+Qed.
+
+Theorem mean_of_dead_component r s xs : nn r -> nn s -> mass r s == 0 -> mean_guarded r s xs == 0.
+Proof.
+  intros Hr Hs Hm. unfold mean_guarded. rewrite (dot_zero_total (had r s) xs (had_nn _ _ Hr Hs) Hm).
+  unfold Qdiv. ring.
+Qed.
+
 (** (4) integer sample weights are replication: a weighted sum over (x_i, n_i) equals the plain sum
     over the replicated list *)
 Lemma total_app a b : total (a ++ b) == total a + total b.
